@@ -233,11 +233,19 @@ class Justifications:
                 '(verified on this run)')
 
     def _member_var(self, fn: FuncInfo, n: ast.Attribute) -> Optional[str]:
-        """`p.member_var.x` where p ranges over `<CppPorts>.mts_ports`."""
-        prog = self.ctx.prog
+        """`p.member_var.x` where p ranges over `<CppPorts>.mts_ports` (in this function, or in every caller that hands p in)."""
         base = n.value.value
         if not isinstance(base, ast.Name):
             return None
+        if not self._is_mts_element(fn, base, n):
+            return None
+        why = self._cached('mts_member_var', self._mts_implies_member_var)
+        return why
+
+    def _is_mts_element(self, fn: FuncInfo, base: ast.Name, n: ast.AST, depth: int = 0) -> bool:
+        prog = self.ctx.prog
+        if depth > 3:
+            return False
         # p is a loop / comprehension variable over a name or expression that is `.mts_ports`
         it = None
         for x in iter_own_nodes(fn.node):
@@ -248,20 +256,68 @@ class Justifications:
                 if any(y is n for y in ast.walk(encl)):
                     break
                 it = None
-        if it is None:
-            return None
-        if not self._is_mts_ports(fn, it):
-            return None
-        why = self._cached('mts_member_var', self._mts_implies_member_var)
-        return why
+        if it is not None:
+            return self._is_mts_ports(fn, it)
+        if base.id in [a_.arg for a_ in fn.params()] and base.id not in self.ctx.cg.env(fn)._assign_sites:
+            callers = [(c_, nd_) for c_, nd_, _k in self.ctx.cg.callers(fn) if isinstance(nd_, ast.Call)]
+            if not callers:
+                return False
+            for c_, nd_ in callers:
+                a_ = prog.bind_call(c_.module, nd_, fn).get(base.id)
+                if not isinstance(a_, ast.Name) or not self._is_mts_element(c_, a_, nd_, depth + 1):
+                    return False
+            return True
+        return False
 
     def _is_mts_ports(self, fn: FuncInfo, e: ast.expr, depth=0) -> bool:
         if depth > 4:
             return False
         if isinstance(e, ast.Attribute) and e.attr == 'mts_ports':
             return True
+        if isinstance(e, ast.BinOp) and isinstance(e.op, ast.Add):
+            return self._is_mts_ports(fn, e.left, depth + 1) and self._is_mts_ports(fn, e.right, depth + 1)
+        prog = self.ctx.prog
+        if isinstance(e, ast.Attribute):
+            # a field / property of a record of the package that only ever holds such a selection
+            t = strip_opt(self.ex.abs.type_at(fn, e.value, e))
+            cls = prog.classes.get(t[1]) if t[0] == 'cls' else None
+            if cls is None:
+                return False
+            m = prog.lookup_method(cls, e.attr)
+            if m is not None and m.is_property:
+                rets = [r for r in iter_own_nodes(m.node) if isinstance(r, ast.Return)]
+                return bool(rets) and all(r.value is not None and self._is_mts_ports(m, r.value, depth + 1) for r in rets)
+            if cls.is_dataclass and cls.frozen and e.attr in prog.class_fields(cls) and prog.lookup_method(cls, '__init__') is None \
+                    and prog.lookup_method(cls, '__post_init__') is None:
+                sites = [(f_, c_) for f_, c_ in self.ex._ctor_sites(cls)]
+                for m_ in cls.methods.values():
+                    if getattr(m_, 'is_classmethod', False):
+                        sites += [(m_, c_) for c_ in iter_own_nodes(m_.node)
+                                  if isinstance(c_, ast.Call) and isinstance(c_.func, ast.Name) and c_.func.id == 'cls']
+                if not sites:
+                    return False
+                fields = list(prog.class_fields(cls))
+                for f_, c_ in sites:
+                    b_ = {fields[i]: a_ for i, a_ in enumerate(c_.args) if i < len(fields) and not isinstance(a_, ast.Starred)}
+                    b_.update({k_.arg: k_.value for k_ in c_.keywords if k_.arg})
+                    if any(isinstance(a_, ast.Starred) for a_ in c_.args) or any(k_.arg is None for k_ in c_.keywords):
+                        return False
+                    if e.attr not in b_ or not self._is_mts_ports(f_, b_[e.attr], depth + 1):
+                        return False
+                return True
+            return False
         if isinstance(e, ast.Name):
             sites = self.ctx.cg.env(fn)._assign_sites.get(e.id, [])
+            if not sites and e.id in [a_.arg for a_ in fn.params()]:
+                # a parameter: every call site in the package hands in such a selection
+                callers = [(c_, nd_) for c_, nd_, _k in self.ctx.cg.callers(fn) if isinstance(nd_, ast.Call)]
+                if not callers:
+                    return False
+                for c_, nd_ in callers:
+                    a_ = prog.bind_call(c_.module, nd_, fn).get(e.id)
+                    if a_ is None or not self._is_mts_ports(c_, a_, depth + 1):
+                        return False
+                return True
             if not sites:
                 return False
             for s in sites:
@@ -280,6 +336,62 @@ class Justifications:
         return False
 
     def _mts_implies_member_var(self) -> Optional[str]:
+        return self._mts_implies_member_var_by_shape() or self._mts_implies_member_var_by_evaluation()
+
+    def _mts_implies_member_var_by_evaluation(self) -> Optional[str]:
+        """The same fact read off the template evaluator (E4), for code that derives the decision through intermediate
+        values (a flavour enum computed from the semantics, a `match`): (b) the filter of `mts_ports`, evaluated for each
+        port kind, rejects the single-threaded kinds; (c) the one function that builds CppPortItf, evaluated for each
+        multi-threaded kind, yields an object whose member variable is an object - and nothing else in the package
+        constructs CppPortItf."""
+        from ..template import Evaluator, TObj, TList, RepL, TAlt, Sym, t_cls
+        from ..links import Scenario, PORT_KINDS
+        prog = self.ctx.prog
+        cp = prog.cls('adv_shell.common', 'CppPorts')
+        cpi = prog.cls('adv_shell.common', 'CppPortItf')
+        if prog.lookup_method(cp, 'mts_ports') is None:
+            return None
+        sites = self.ex._ctor_sites(cpi)
+        builders = {sfn.fq for sfn, _c in sites}
+        top = set()
+        for sfn, _c in sites:
+            f_ = sfn
+            while f_.parent is not None:
+                f_ = f_.parent
+            top.add(f_)
+        if len(top) != 1:
+            return None
+        builder = next(iter(top))
+        try:
+            ev = Evaluator(prog, self.ctx.cg)
+            ports = ev.getattr(ev.param_sym('cpp_ports', t_cls(cp.fq)), 'mts_ports', builder, 1)
+            val = ev.eval_entry(builder)
+        except Exception:       # pylint: disable=broad-except
+            return None
+        if not (isinstance(ports, TList) and len(ports.items) == 1 and isinstance(ports.items[0], RepL)):
+            return None
+        src = ports.items[0].src
+        if not (isinstance(src.base, Sym) and src.base.path[-1:] == ('ports',)):
+            return None
+        n_mts = 0
+        for kind, k in PORT_KINDS.items():
+            sc = Scenario(kind=kind)
+            verdicts = [sc.decide(f) for f in src.filters]
+            if k['semantics'] != 'MTS':
+                if not any(v is False for v in verdicts):
+                    return None          # a single-threaded port may be selected
+                continue
+            n_mts += 1
+            obj = sc.select(val)
+            if not isinstance(obj, TObj) or obj.cls is not cpi or not isinstance(obj.fields.get('member_var'), TObj):
+                return None
+        if not n_mts:
+            return None
+        return (f'CppPorts.mts_ports rejects every single-threaded port kind, and {builder.qualname} - the only place CppPortItf '
+                f'is constructed - evaluated for each of the {n_mts} multi-threaded port kinds yields a port with a member '
+                f'variable object (template evaluation, verified on this run)')
+
+    def _mts_implies_member_var_by_shape(self) -> Optional[str]:
         prog = self.ctx.prog
         cp = prog.cls('adv_shell.common', 'CppPorts')
         mts = cp.methods.get('mts_ports')
@@ -716,6 +828,12 @@ def _rejects(ctx, ex: ExcAnalysis, abs_: Abs):
             n_mc += 1
             run.add('C13.rejects', cmc.module.name, cmc.qualname, s, ex.is_library_error(exc),
                     f'invalid multi-client setting rejected with {exc.split(".")[-1]}', node=s)
+    from .shared import rejecting_calls
+    for c_, h_, r_ in rejecting_calls(ctx, cmc):
+        exc = ex.exc_name(h_, r_.exc)
+        n_mc += 1
+        run.add('C13.rejects', cmc.module.name, cmc.qualname, c_, ex.is_library_error(exc),
+                f'invalid multi-client setting rejected with {exc.split(".")[-1]} (in {h_.qualname})', node=c_)
     if n_mc < 4:
         run.violation('C13.rejects', cmc.module.name, cmc.qualname, 'check_multiclient_cfg rejections',
                       f'only {n_mc} rejections in check_multiclient_cfg (claim event, reply type, reply value, release event)')
